@@ -31,7 +31,7 @@ impl Property for C18 {
     fn components_real(&self) -> Vec<&'static str> { vec!["replication::anti_entropy::{StateDigest::from_state, differs_from, divergent_buckets, KeyDigest::new, MerkleNode}", "AntiEntropyManager::get_keys_in_buckets", "simulator::multi_node::MultiNodeSimulation::run_anti_entropy_sync (the repo's own sync routine)", "ShardReplicaState::apply_remote_delta"] }
     fn components_stubbed(&self) -> Vec<&'static str> { vec!["no network: digests and deltas are handed over in memory, as the repo's routine does"] }
     fn assumptions(&self) -> Vec<&'static str> { vec!["'equal digests => equal states' is checked up to 64-bit hash collision, which cannot occur by chance at these sizes; 'equal states => equal digests' is exact"] }
-    fn required_probes(&self) -> Vec<&'static str> { vec!["bucket_with_2plus_keys", "equal_pair_checked", "unequal_pair_checked", "sync_needed_multiple_rounds"] }
+    fn required_probes(&self) -> Vec<&'static str> { vec!["bucket_with_2plus_keys", "equal_pair_checked", "unequal_pair_checked", "sync_needed_multiple_rounds", "both_sides_lack_updates"] }
     fn runs(&self, tier: Tier) -> u64 { match tier { Tier::Quick => 25000, Tier::Thorough => 1000000 } }
 
     fn run(&self, src: &mut Src, ctx: &RunCtx) -> RunReport {
@@ -119,7 +119,10 @@ impl Property for C18 {
             let limit = *src.pick(&[1000usize, 1, 2, 5]);
             let mut sim = MultiNodeSimulation::new_without_anti_entropy(2, 7);
             for node in sim.nodes.iter_mut() { node.anti_entropy.config.max_keys_per_sync = limit; node.anti_entropy.config.merkle_tree_depth = depth; }
-            sim.nodes[0].apply_remote_deltas(deltas.clone());
+            // both sides may lack something the other holds (a healed split brain), not only node 1
+            let withheld0: BTreeSet<usize> = if src.chance(1, 2) { src.list(3, 3, 4, |s| s.idx(n)).into_iter().filter(|i| !withheld.contains(i)).collect() } else { BTreeSet::new() };
+            if !withheld0.is_empty() { rep.probe("both_sides_lack_updates"); }
+            sim.nodes[0].apply_remote_deltas(deltas.iter().enumerate().filter(|(i, _)| !withheld0.contains(i)).map(|(_, d)| d.clone()).collect());
             sim.nodes[1].apply_remote_deltas(deltas.iter().enumerate().filter(|(i, _)| !withheld.contains(i)).map(|(_, d)| d.clone()).collect());
             // expected: per key merge of both prior states
             let mut want: BTreeMap<String, String> = BTreeMap::new();
@@ -130,7 +133,8 @@ impl Property for C18 {
             let bk: BTreeSet<usize> = d0.divergent_buckets(&d1).into_iter().collect();
             let in_div = |k: &String, v: &ReplicatedValue| bk.contains(&KeyDigest::new(k, v).bucket(depth));
             let keys_in_div: usize = s0.iter().filter(|(k, v)| in_div(k, v)).count().max(s1.iter().filter(|(k, v)| in_div(k, v)).count());
-            let rounds_allowed = keys_in_div.div_ceil(limit).max(bk.len()) + 2;
+            // when the per-round limit does not bind, ONE exchange must leave both sides with the merge
+            let rounds_allowed = if keys_in_div <= limit { 1 } else { keys_in_div.div_ceil(limit).max(bk.len()) + 2 };
             if keys_in_div > limit { rep.probe("sync_needed_multiple_rounds"); }
             let mut rounds = 0;
             let mut synced = false;
